@@ -1594,12 +1594,21 @@ fn own_program(family: &str, rng: &mut Rng) -> Option<OwnProg> {
                 _ => format!("defined {} + 1 == 2", name),
             };
             let kw = *rng.pick(&["#if", "#if 0\n#elif", "  #\tif"]);
-            one(format!("{}#define {} 3\n{} {}\nint f() {{ return 1; }}\n#else\nint f() {{ return 2; }}\n#endif\nint g() {{ return f(); }}\n", head, name, kw, cond), vec![])
+            // "#if condition parser failed" is reported at the first token of the condition
+            let a = if cond.ends_with("junk") || cond.ends_with("== 2") { vec![(0, "defined".to_string())] } else { vec![] };
+            one(format!("{}#define {} 3\n{} {}\nint f() {{ return 1; }}\n#else\nint f() {{ return 2; }}\n#endif\nint g() {{ return f(); }}\n", head, name, kw, cond), a)
         }
         "lt_directive_shapes" => {
             // directive lines the other families do not write: commands that do nothing, commands inside a skipped
             // block that are not even names, an error of the text in front of a directive
-            let src = match rng.below(12) {
+            let v = rng.below(12);
+            // an invalid parameter list is reported at the macro name, a header name that wraps at its `<`
+            let a = match v {
+                8..=10 => vec![(0, format!("M_{}", n))],
+                11 => vec![(0, "<abc".to_string())],
+                _ => vec![],
+            };
+            let src = match v {
                 0 => format!("#undef NEVER_DEFINED_{}\nint f() {{ return 1; }}\n", n),
                 1 => "#pragma warning(disable: 3557)\nint f() { return 1; }\n#pragma warning ( default : 3557 ) // c\n".to_string(),
                 2 => "#if 0\n# 12 junk\n#\"str\"\n#+\n# /* c */ 7\n#endif\nint f() { return 1; }\n".to_string(),
@@ -1613,7 +1622,7 @@ fn own_program(family: &str, rng: &mut Rng) -> Option<OwnProg> {
                 10 => format!("#define M_{}(1) a\nint f() {{ return 1; }}\n", n),
                 _ => "#include <abc\ndef>\nint f() { return 1; }\n".to_string(),
             };
-            one(format!("{}{}", head, src), vec![])
+            one(format!("{}{}", head, src), a)
         }
         "lt_macro_shapes" => {
             // macro uses the generator does not write: a function-like macro name that is not called, mutually recursive
